@@ -20,7 +20,7 @@
 From Coq Require Import List ZArith NArith Bool Arith Lia.
 From GoProbe.Base Require Import CorrLib.
 From GoProbe.C04 Require Import Model.
-From GoProbe.C30 Require Import Model Corr Proofs Proofs2 Proofs3.
+From GoProbe.C30 Require Import Model Corr Proofs Proofs2 Proofs3 WInv RSpec REnv RThm.
 Import ListNotations.
 
 (* Every interleaving is covered by the exploration: for ALL histories, reader kinds and results. *)
@@ -38,7 +38,8 @@ Theorem c30_every_interleaving : forall c s0 H good s ops p out, conc c s ops p 
 Proof. exact safe_sound. Qed.
 Print Assumptions c30_every_interleaving.
 
-(* c30_snapshot for the explored histories: EVERY interleaving of a query with the three write-outs
+(* BOUNDED (exhaustive exploration of explicit small histories - not a proof for arbitrary ws):
+   c30_snapshot for the explored histories: EVERY interleaving of a query with the three write-outs
    (hist3 - three renames of one day - is explored for the listing only: the query exploration exceeds the
    build budget). *)
 Theorem c30_snapshot_bounded : forall ws out, In ws [hist1; hist2] ->
@@ -46,11 +47,34 @@ Theorem c30_snapshot_bounded : forall ws out, In ws [hist1; hist2] ->
 Proof. exact snapshot_bounded. Qed.
 Print Assumptions c30_snapshot_bounded.
 
-(* c30_listing_snapshot for the explored histories. *)
+(* BOUNDED: c30_listing_snapshot for the explored histories (subsumed by c30_listing_snapshot_partial). *)
 Theorem c30_listing_snapshot_bounded : forall ws out, In ws [hist1; hist2; hist3] ->
   conc (cal_of ws) fs_empty (hist_ops fs_empty ws) (reader_prog false) out -> good_list ws out = true.
 Proof. exact listing_bounded. Qed.
 Print Assumptions c30_listing_snapshot_bounded.
+
+
+(* ------------------------------------------------------------------ UNBOUNDED: ReadMetadata, any history *)
+(* For EVERY history ws (any number of write-outs, any days, any interfaces) and EVERY interleaving of one
+   ReadMetadata run with the writer's operations: the reader returns Ok and every day it lists contributes the
+   totals of the first j write-outs for some j <= length ws (spec_tot ws day j = totals of that day's blocks in
+   the abstract database after j write-outs; tot_ok ws (day, t) = exists j <= length ws, t = spec_tot ws day j).
+   Proved by invariants, not by exploration: writer side (WInv*.v) - every prefix state of hist_ops satisfies
+   GoodS with a monotone labelling of time by (number of committed write-outs, per-day name counter): metadata =
+   meta_of (committed list), directory name = totals of a prefix of it, day directories are never removed; reader
+   side (REnv.v) - time-indexed weakest preconditions, sound for every `conc` derivation, with the retry loops of
+   GPDir.Open handled by a phase invariant (no termination argument needed).
+   Assumption (hence _partial): totals_no_recur ws - the totals of a day never return to an earlier value
+   (false only if a 64-bit counter wraps); without it the model reader can fail: the recovered path can equal the
+   path that failed although the directory was renamed twice in between. *)
+Theorem c30_listing_snapshot_partial : forall ws out, totals_no_recur ws ->
+  conc (cal_of ws) fs_empty (hist_ops fs_empty ws) (reader_prog false) out ->
+  exists o, out = Ok o /\ Forall (tot_ok ws) (o_tots o).
+Proof. exact listing_snapshot. Qed.
+Print Assumptions c30_listing_snapshot_partial.
+(* non-vacuity: hist1 (three write-outs to one day, the last with unchanged totals) meets the hypothesis *)
+Example c30_listing_hyp_example : totals_no_recur hist1.
+Proof. exact hist1_no_recur. Qed.
 
 (* non-vacuity: an interleaving of hist1 exists in which the query is stopped before a column open, the
    day directory is renamed, and the reader recovers (model_run follows a schedule = one interleaving) *)
